@@ -512,7 +512,7 @@ class Daemon(object):
                 conn.send(msg.data)
         except Exception as xv:
             msg = getattr(xv, "pyroMsg", None)
-            if msg:
+            if isinstance(msg, protocol.ReceivingMessage):    # (set by recv_stub; ignore an application attribute of the same name)
                 request_seq = msg.seq
                 request_serializer_id = msg.serializer_id
             if not isinstance(xv, errors.ConnectionClosedError):
